@@ -634,11 +634,16 @@ class ThreadEmitter:
         if not self.G.cfg.get('hb'):
             return
         G = self.G
+        only = G.cfg.get('hb_objects')       # if given: race-check only plain accesses to these (client data) objects, at constant addresses
         if x.c is not None:
             for o in G.objs:
                 if o.base <= x.c < o.base + max(o.size, 1):
                     if o.kind == 'stack' or o.immutable or o.kind == 'tls':
                         return
+                    if only is not None and o.name not in only:
+                        return
+        elif only is not None:
+            return
         self.emit('%s(%s);' % ('VF_PLAIN_WR' if is_write else 'VF_PLAIN_RD', x.s))
 
     def sx(self, e, bits):
